@@ -27,6 +27,8 @@ func c05Extra(c *core.Ctx) {
 	c.Floor("R05d", 2, "recDone (flat-file hierarchy reader) and segDone (EDI reader)")
 	c05OnlyEmptySkipped(c)
 	c.Floor("R05e", 2, "old fixed-length readLine, fixedlength2 readLine")
+	c05MatcherState(c)
+	c.Floor("R05f", 4, "recDone/recNext (flat-file hierarchy reader), segDone/segNext (EDI reader)")
 }
 
 func c05MaxConsulted(c *core.Ctx) {
@@ -358,4 +360,132 @@ func dependsOn(v, src ssa.Value, d int) bool {
 		}
 	}
 	return false
+}
+
+// R05f — the matcher's decisions depend on the declaration stack only (added after seed C05-5, which made recNext skip
+// not-yet-visited siblings once an "input drained" flag was set). In the functions that advance the matcher (the
+// occurrence-counting function and the `func() error` step it cooperates with) every branch condition may depend, among
+// the reader's own fields, only on the declaration stack, the target holder (*Node) and the compiled target filter
+// (*xpath.Expr). A decision that reads any other reader field couples matching to input/IO state, and the greedy
+// matcher is no longer a function of the hierarchy and the unit sequence alone.
+func c05MatcherState(c *core.Ctx) {
+	n := 0
+	for _, f := range c.RepoFunctions() {
+		if core.IsCLIOrSample(core.FuncPkg(f)) || f.Signature.Recv() == nil || f.Parent() != nil {
+			continue
+		}
+		recv := core.NamedOf(f.Signature.Recv().Type())
+		if recv == nil {
+			continue
+		}
+		st, ok := recv.Underlying().(*types.Struct)
+		if !ok {
+			continue
+		}
+		// hierarchical reader: has a slice-of-struct field whose element has a *Node field (the stack)
+		var stackFld *types.Var
+		for i := 0; i < st.NumFields(); i++ {
+			if sl, ok := st.Field(i).Type().Underlying().(*types.Slice); ok {
+				if es, ok := sl.Elem().Underlying().(*types.Struct); ok {
+					for j := 0; j < es.NumFields(); j++ {
+						if nn := core.NamedOf(es.Field(j).Type()); nn != nil && nn.Obj().Name() == "Node" && strings.HasSuffix(nn.Obj().Pkg().Path(), "/idr") {
+							stackFld = st.Field(i)
+						}
+					}
+				}
+			}
+		}
+		if stackFld == nil {
+			continue
+		}
+		// matcher step functions: no parameters besides the receiver, results () or (error), and they touch the stack
+		sig := f.Signature
+		if sig.Params().Len() != 0 || !(sig.Results().Len() == 0 || (sig.Results().Len() == 1 && isErrorT(sig.Results().At(0).Type()))) {
+			continue
+		}
+		touchesStack := false
+		for _, b := range f.Blocks {
+			for _, in := range b.Instrs {
+				if fa, ok := in.(*ssa.FieldAddr); ok && core.FieldOfAddr(fa) == stackFld {
+					touchesStack = true
+				}
+				if ci, ok := in.(ssa.CallInstruction); ok {
+					if cf := ci.Common().StaticCallee(); cf != nil && cf.Signature.Recv() != nil && core.NamedOf(cf.Signature.Recv().Type()) == recv {
+						touchesStack = touchesStack || true
+					}
+				}
+			}
+		}
+		if !touchesStack || f.Name() == "Read" {
+			continue
+		}
+		// only functions that change the matcher state (write a stack entry field or the stack itself, or call such)
+		writes := false
+		for _, w := range core.Writes(f) {
+			if w.Field != nil && (w.Field == stackFld || (w.Owner != nil && isStackEntry(w.Owner, stackFld))) {
+				writes = true
+			}
+		}
+		if !writes {
+			continue
+		}
+		n++
+		key := core.FuncKey(f) + " decisions depend on the stack only"
+		bad := ""
+		for _, b := range f.Blocks {
+			ifi, ok := b.Instrs[len(b.Instrs)-1].(*ssa.If)
+			if !ok {
+				continue
+			}
+			for _, fld := range readerFieldsIn(ifi.Cond, recv, 0, map[ssa.Value]bool{}) {
+				if fld == stackFld {
+					continue
+				}
+				t := fld.Type()
+				if nn := core.NamedOf(t); nn != nil && isPointer(t) {
+					if nn.Obj().Name() == "Node" && strings.HasSuffix(nn.Obj().Pkg().Path(), "/idr") {
+						continue // target holder
+					}
+					if nn.Obj().Name() == "Expr" && nn.Obj().Pkg().Path() == "github.com/antchfx/xpath" {
+						continue // compiled target filter
+					}
+				}
+				bad = fld.Name()
+			}
+		}
+		c.Check(bad == "", "R05f", key, f.Pos(), "branch conditions read only the declaration stack, the target holder and the target filter",
+			"a matcher decision depends on reader field "+bad+": matching is coupled to state outside the declaration stack (e.g. an end-of-input flag), so declarations can be skipped without their minimum being checked")
+	}
+	if n == 0 {
+		c.Unresolved("R05f", "matcher step functions", "none found")
+	}
+}
+
+func isStackEntry(owner *types.Named, stackFld *types.Var) bool {
+	sl, ok := stackFld.Type().Underlying().(*types.Slice)
+	return ok && types.Identical(sl.Elem(), owner)
+}
+
+// readerFieldsIn: fields of the receiver type loaded directly in the backward slice of v (within the function).
+func readerFieldsIn(v ssa.Value, recv *types.Named, d int, seen map[ssa.Value]bool) []*types.Var {
+	if v == nil || d > 12 || seen[v] {
+		return nil
+	}
+	seen[v] = true
+	var out []*types.Var
+	if fa, ok := v.(*ssa.FieldAddr); ok {
+		if o := core.FieldOwner(fa); o != nil && types.Identical(o, recv) {
+			out = append(out, core.FieldOfAddr(fa))
+		}
+	}
+	in, ok := v.(ssa.Instruction)
+	if !ok {
+		return out
+	}
+	for _, op := range in.Operands(nil) {
+		if *op != nil {
+			out = append(out, readerFieldsIn(*op, recv, d+1, seen)...)
+		}
+	}
+	return out
 }
